@@ -55,8 +55,15 @@ class PropertyCheck:
     # ---- to override
     def streams(self):            # -> dict name -> list[Script]
         raise NotImplementedError
+    UNORDERED = {"SMEMBERS", "SUNION", "SINTER", "SDIFF", "SPOP", "SRANDMEMBER", "HKEYS", "HVALS", "KEYS",
+                 "ZPOPMIN", "ZPOPMAX", "ZMPOP", "ZUNION", "ZINTER", "ZDIFF", "ZRANDMEMBER"}
+    UNORDERED_PAIRS = {"HGETALL"}
     def reply_opts(self, argv):
-        return {}
+        """replies the server builds by ranging over a Go map: compared as multisets"""
+        w = str(argv[0]).upper() if argv else ""
+        if w in self.UNORDERED_PAIRS:
+            return {"unordered": True, "pairs": True}
+        return {"unordered": True} if w in self.UNORDERED else {}
     digest_opts = None
     def spec_script(self, script, impl_lines):
         return None
@@ -189,12 +196,7 @@ class PropertyCheck:
         nviol = 0
         reported = set()
         def fails_oracle(c):
-            im = run_impl([c], self.per_script_timeout())
-            sp = self.spec_script(c, im.get(c.id, []))
-            if sp is None:
-                return False
-            so = run_model([sp], self.spec_mode)
-            return bool(self.spec_compare(c, im.get(c.id, []), so.get(sp.id, ["<none>"])))
+            return bool(self.oracle_report(c))
         def diverges(c):
             im = run_impl([c], self.per_script_timeout()); mo = run_model([c])
             return bool(compare_lines(c, im.get(c.id, []), mo.get(c.id, []), self.reply_opts, self.digest_opts))
@@ -207,16 +209,12 @@ class PropertyCheck:
             if nviol >= 5:
                 nviol += 1
                 continue
-            small = self.shrink(s, fails_oracle) if self.spec_mode else s
-            im = run_impl([small], self.per_script_timeout())
-            sp = self.spec_script(small, im.get(small.id, []))
-            so = run_model([sp], self.spec_mode) if sp else {}
-            path = write_replay(prop, "viol%d" % nviol, {
+            small = self.shrink(s, fails_oracle)
+            rep = self.oracle_report(small) or {"verdict": r}
+            path = write_replay(prop, "viol%d" % nviol, dict({
                 "property": prop, "kind": "implementation rejected by the property's reference",
                 "script": dict(small.to_json(), setup_len=getattr(small, "setup_len", 0)),
-                "impl_trace": im.get(small.id), "reference_trace": so.get(sp.id) if sp else None,
-                "verdict": self.spec_compare(small, im.get(small.id, []), so.get(sp.id, [])) if sp else r,
-                "original_script": s.to_json(), "seed": self.seed})
+                "original_script": s.to_json(), "seed": self.seed}, **rep))
             print("VIOLATION property=%s replay=%s" % (prop, path))
             reported.add(s.id)
             nviol += 1
@@ -300,6 +298,21 @@ class PropertyCheck:
         log("%s %s: %d scripts, %d divergences, %d rejections, %d obligations (%d discharged), %.1fs" %
             (prop, self.tier, len(scripts), len(div), len(rej), n_obl, n_dis, time.time() - t0))
         return 1 if nviol else 0
+
+    def oracle_report(self, c):
+        """None when the reference accepts the implementation's trace of script c, else a dict for the replay file"""
+        if not self.spec_mode:
+            _, _, _, rej = self.evaluate([c])
+            return {"verdict": rej[0][1]} if rej else None
+        im = run_impl([c], self.per_script_timeout())
+        sp = self.spec_script(c, im.get(c.id, []))
+        if sp is None:
+            return None
+        so = run_model([sp], self.spec_mode)
+        v = self.spec_compare(c, im.get(c.id, []), so.get(sp.id, ["<none>"]))
+        if not v:
+            return None
+        return {"impl_trace": im.get(c.id), "reference_trace": so.get(sp.id), "verdict": v}
 
     def replay_known(self, kf):
         return False
